@@ -124,8 +124,8 @@ class Gen:
         if r < 0.75 and self.floats:
             return float_lit(self.rng.choice([0.5, 1.5, 2.0, 0.25, 1.0, 0.0, 2.5]))
         if r < 0.82 and self.consts:
-            c = self.rng.choice(['PI', 'E', 'INF'])
-            return ('lit', c, {'PI': math.pi, 'E': math.e, 'INF': math.inf}[c])
+            c = self.rng.choice(['PI', 'E', 'INF', 'NAN'])
+            return ('lit', c, {'PI': math.pi, 'E': math.e, 'INF': math.inf, 'NAN': math.nan}[c])
         return int_lit(self.rng.randrange(0, 4))
 
     def str_lit(self):
